@@ -1500,7 +1500,7 @@ def probe_optional_union(ctx: vlib.Ctx, n: int):
 # the check
 # ---------------------------------------------------------------------------
 
-CODE_THEOREMS = ["C12_code_variants", "C12_code_exceptions"]
+CODE_THEOREMS = ["C12_code_variants", "C12_code_exceptions", "C12_code_dispatcher"]
 THEOREMS = ["C12_registry_invariant", "C12_registry", "C12_missing_tag", "C12_present_keys_not_missing", "C12_nested_missing_key", "C12_multi_field", "C12_dispatch_ref", "C12_dispatch_ref_fmt", "C12_format_independent", "C12_format_reset", "C12_history_independent_full", "C12_uniq_all_decidable", "C12_registry_nested", "C12_nofield_nested", "C12_unhashable_tag", "C12_non_mapping", "C12_history_independent",
             "C12_eligible_exact", "C12_nofield", "C12_trace_event", "C12_tag_unique_decidable",
             "C12_nonunique_order_dependent", "C12_class_level_self_excluded",
